@@ -739,6 +739,77 @@ class Gen:
             for ccls, content in CONTENT_CLASSES:
                 self.add("name", "wa", name, hexs(content), len(content), ["syntax", "format"], "name class %s, content class %s" % (ncls, ccls))
 
+    def stream_grid(self):
+        """grammar-aware grids over the wa-specific surface (not inherited from go/parser): every assembler directive x
+        every operand kind x section; every `#wa:` / `#凹:` directive x argument shape x declaration kind (valid
+        programs: these also go through LoadProgramFile); every WAT module field / instruction x operand kind"""
+        ops = [b"", b"1", b"-1", b"300", b"70000", b"5000000000", b"99999999999999999999", b"0x10", b"1.5", b'"ab"', b'"\\n"', b"'a'", b"x",
+               b"x, y", b"1, 2", b"x+1", b"(", b"%hi(x)", b"$t0", b"a0", b"rax", b".text", b":", b"# c", b",", b"-", b"@function", b".-x"]
+        dirs = [b".byte", b".short", b".long", b".quad", b".float", b".double", b".ascii", b".skip", b".incbin", b".align", b".globl",
+                b".global", b".extern", b".section", b".file", b".loc", b".size", b".type", b".set", b".cfi_startproc", b".cfi_endproc",
+                b".cfi_def_cfa_offset", b".cfi_offset", b".cfi_def_cfa_register", b".intel_syntax", b"noprefix", b".asciz", b".zero",
+                "函数".encode(), "完毕".encode(), "全局".encode(), "常量".encode(), "外部".encode(), "导出".encode(), "段".encode(),
+                b"nop", b"addi", b"add", b"ld", b"sd", b"jal", b"ret", b"mov", b"li", b"la", b"beq", b"lui", b"auipc", b"ecall",
+                b"pcalau12i", b"addi.d", b"jirl", b"bl", b"b"]
+        asm_eps = ["nasm_la", "nasm_rv", "nasm_x64", "nasm_arm"]
+        for d in dirs:
+            for o in ops:
+                for ctxname, pre, post in (("top", b"", b"\n"), ("data", b".section .data\nv: ", b"\n"), ("data-noname", b".section .data\n", b"\n"),
+                                           ("text", b".section .text\n.globl f\nf:\n\t", b"\n\tret\n"),
+                                           ("x64-text", b".intel_syntax noprefix\n.section .text\n.globl f\nf:\n\t", b"\n\tret\n")):
+                    c = pre + d + b" " + o + post
+                    self.add("grid", "asm", OWN_NAME["asm"], hexs(c), len(c), asm_eps, "asm grid %s: %s %s" % (ctxname, d.decode(), o.decode()))
+        # ---- directives on declarations (Wa and Wz)
+        args = [b"", b"x", b"F2", b"T.F2", b"+ F2", b"+", b"== F2 F3", b"1", b'"a"', b"a b c d", b"wasm", b"!", b"ignore", b"env f",
+                b"F2 F2", b"F", b"main", b"_", b"a/b", "忽略".encode(), b"8", b"-1", b"x " * 50]
+        wa_dirs = [b"build", b"align", b"linkname", b"export", b"import", b"force_register", b"runtime_getter", b"runtime_setter",
+                   b"runtime_sizer", b"generic", b"operator", b"embed", b"need-constructor", b"unknown", b""]
+        wa_decls = [("func", b"func F(a: int) => int { return a }\nfunc F2(a: f64) => f64 { return a }\n"),
+                    ("func-nobody", b"func F(a: int) => int\nfunc F2(a: f64) => f64 { return a }\n"),
+                    ("method", b"func T.F(a: int) => int { return a }\nfunc T.F2(a: f64) => f64 { return a }\ntype T :struct { v: int }\n"),
+                    ("type", b"type T :struct { v: int }\nfunc F2(a, b: T) => T { return a }\nfunc T.F2(b: T) => T { return b }\n"),
+                    ("global", b"global G: int = 1\nfunc F2() {}\n"), ("const", b"const C = 1\nfunc F2() {}\n"),
+                    ("blank-func", b"func _() {}\nfunc F2() {}\n"), ("import", b'import "fmt"\nfunc F2() {}\n')]
+        for dn in wa_dirs:
+            for a in args:
+                for kind, decl in wa_decls:
+                    c = b"#wa:" + dn + (b" " + a if a else b"") + b"\n" + decl + b"func _() {}\nfunc main() { _ = 1 }\n"
+                    self.add("grid", "wa", OWN_NAME["wa"], hexs(c), len(c), ["parsewa", "checkwa", "format", "loadwa"] if (kind in ("func", "method", "type") and a in (b"F2", b"T.F2", b"+ F2") and dn not in (b"unknown", b"", b"force_register", b"runtime_setter", b"runtime_sizer", b"need-constructor")) else ["parsewa", "checkwa", "format"],
+                             "wa directive grid: #wa:%s %s on %s" % (dn.decode(), a.decode()[:20], kind))
+        wz_dirs = ["构建", "对齐", "链接名", "导出", "引入", "强制寄存器", "运行时获取器", "运行时设置器", "运行时度量", "泛型", "运算符", "嵌入", "未知", ""]
+        wz_decls = [("func", "函数·甲(子: 整型) => 整型:\n\t返回 子\n完毕\n函数·乙(子: 整型) => 整型:\n\t返回 子\n完毕\n"),
+                    ("method", "结构·丙:\n\t值: 整型\n完毕\n函数·丙·甲(子: 整型) => 整型:\n\t返回 子\n完毕\n函数·丙·乙(子: 整型) => 整型:\n\t返回 子\n完毕\n"),
+                    ("type", "结构·丙:\n\t值: 整型\n完毕\n函数·乙(子, 丑: 丙) => 丙:\n\t返回 子\n完毕\n"),
+                    ("global", "全局·丁: 整型 = 1\n"), ("const", "常量·戊 = 1\n")]
+        wz_args = ["", "乙", "丙·乙", "+ 乙", "+", "1", '"a"', "甲", "忽略", "a b c", "_"]
+        for dn in wz_dirs:
+            for a in wz_args:
+                for kind, decl in wz_decls:
+                    c = ("#凹:" + dn + (" " + a if a else "") + "\n" + decl + "函数·主控:\n完毕\n").encode()
+                    self.add("grid", "wz", OWN_NAME["wz"], hexs(c), len(c), ["parsewz", "checkwz", "format"] + (["loadwz"] if (a in ("乙", "丙·乙", "+ 乙") and kind in ("func", "method") and dn in ("泛型", "运算符", "导出", "引入", "链接名")) else []),
+                             "wz directive grid: #凹:%s %s on %s" % (dn, a, kind))
+        # ---- WAT: module fields and instructions x operand kinds
+        wops = [b"", b"1", b"-1", b"99999999999999999999", b"0x", b"1.5", b"nan", b"inf", b'"a"', b"$x", b"$f", b"x", b"i32", b"(", b")",
+                b"(i32.const 0)", b"(result i32)", b"(param i32)", b"(mut i32)", b"offset=1", b"align=3", b"align=0", b"offset=-1", b"funcref", b"0 0 0"]
+        fields = [b"type", b"import", b"func", b"table", b"memory", b"global", b"export", b"start", b"elem", b"data", b"module", b"param",
+                  b"result", b"local", b"mut", b"offset", b"unknown"]
+        for f in fields:
+            for o in wops:
+                for o2 in (b"", b"1", b"$f"):
+                    c = b"(module $m (func $f) (memory 1) (" + f + b" " + o + b" " + o2 + b"))"
+                    self.add("grid", "wat", OWN_NAME["wat"], hexs(c), len(c), ["wat"], "wat field grid: (%s %s %s)" % (f.decode(), o.decode(), o2.decode()))
+        insts = set()
+        for t in self.seeds.token_pool("wat", self.rng):
+            if re.fullmatch(rb"[a-z][a-z0-9_]*(\.[a-z0-9_]+)?", t):
+                insts.add(t)
+        insts |= {b"block", b"loop", b"if", b"else", b"end", b"br", b"br_if", b"br_table", b"call", b"call_indirect", b"return", b"drop", b"select",
+                  b"unreachable", b"nop", b"local.get", b"local.set", b"local.tee", b"global.get", b"global.set", b"i32.load", b"i64.store8",
+                  b"memory.size", b"memory.grow", b"i32.const", b"i64.const", b"f32.const", b"f64.const", b"table.get", b"ref.null", b"memory.copy"}
+        for ins in sorted(insts):
+            for o in wops:
+                c = b"(module (memory 1) (table 1 funcref) (func $f (param $x i32) (result i32)\n" + ins + b" " + o + b"\n))"
+                self.add("grid", "wat", OWN_NAME["wat"], hexs(c), len(c), ["wat"], "wat instruction grid: %s %s" % (ins.decode(), o.decode()))
+
     def stream_extreme(self, sizes, quick):
         """the recursion-depth probes asked for explicitly: 10^5 (thorough: 5*10^6) nested brackets / unary operators /
         blocks, through the scanners and parsers only"""
@@ -1145,6 +1216,7 @@ def run(ctx):
     if quick:
         gen.stream_seeds(load_every=8)
         gen.stream_names()
+        gen.stream_grid()
         gen.stream_token_mut(2200, 0.08)
         gen.stream_byte_mut(1400, 0.06)
         gen.stream_trunc(3, 0.03)
@@ -1153,6 +1225,7 @@ def run(ctx):
     else:
         gen.stream_seeds(load_every=1)
         gen.stream_names()
+        gen.stream_grid()
         gen.stream_token_mut(40000, 0.05)
         gen.stream_byte_mut(25000, 0.05)
         gen.stream_trunc(None, 0.004)
@@ -1321,7 +1394,7 @@ def run(ctx):
         s = gen.inputs[i]["stream"]
         streams[s] = streams.get(s, 0) + 1
     samples = []
-    for s in ("tok", "byte", "trunc", "name", "deep"):
+    for s in ("tok", "byte", "trunc", "name", "grid", "deep"):
         ex = [i for i in gen.order if gen.inputs[i]["stream"] == s][:2]
         for i in ex:
             samples.append({"id": i, "desc": gen.inputs[i]["desc"], "size": gen.inputs[i]["size"],
